@@ -757,7 +757,7 @@ func init() {
 		RuleText: "random Add/Remove histories (ids not live at Add; 3-6 fields of fixed type int/float/string/bool; values incl. 0, negatives, +-2^62, MinInt64/MaxInt64, floats with 3-4 decimals and 19.99, empty strings, strings containing ':') with searches: simple filter lists, up to 3 groups x 4 filters (AND/OR), query builder, Not(.) of each operator, operands absent from the data, fields absent from the index, ill-typed operands (model comparison only); a case is non-trivial when some search that was judged against the specification had at least one filter and returned a non-empty answer that excludes at least one live document, and no answer of the case was attributed to a known finding; distinct = distinct request streams",
 		NCases: func(tier string) int {
 			if tier == "thorough" {
-				return 150000
+				return 100000
 			}
 			return 5000
 		},
